@@ -110,7 +110,9 @@ class AstToDjangoQVisitor(visitor.NodeVisitor):
 
     def visit_Null(self, node: ast.Null) -> str:
         ":meta private:"
-        raise NotImplementedError("Should not be reached")
+        # `x eq null` and `x ne null` are handled by `visit_Compare`, anywhere
+        # else (`null gt x`, `x in (1, null)`, `length(null)`) it is refused:
+        raise ex.TypeException("Django", "null")
 
     def visit_Integer(self, node: ast.Integer) -> Value:
         ":meta private:"
